@@ -409,7 +409,7 @@ func checkMain(args []string, t *testing.T) int {
 				for _, k := range l.Keys {
 					keys[k] = true
 				}
-				if l.Und != "" {
+				if l.Und != "" && len(l.Viol) == 0 {
 					undecided = append(undecided, fmt.Sprintf("run %d: %s", l.Run, l.Und))
 				}
 				for _, v := range l.Viol {
@@ -749,10 +749,6 @@ func replayMain(args []string, t *testing.T) int {
 			fmt.Println(l)
 		}
 	}
-	if res.Undecided != "" {
-		fmt.Println("UNDECIDED:", res.Undecided)
-		return 2
-	}
 	want := ""
 	if rf.Violation != nil {
 		want = rf.Violation.Signature
@@ -760,8 +756,15 @@ func replayMain(args []string, t *testing.T) int {
 	for _, v := range res.Violations {
 		if want == "" || v.Signature == want {
 			fmt.Printf("VIOLATION property=%s replay=%s\n  signature: %s\n  %s\n", rf.Property, *file, v.Signature, v.Message)
+			if res.Undecided != "" {
+				fmt.Println("  (the run also ended with:", firstLine(res.Undecided)+")")
+			}
 			return 1
 		}
+	}
+	if res.Undecided != "" {
+		fmt.Println("UNDECIDED:", res.Undecided)
+		return 2
 	}
 	if len(res.Violations) > 0 {
 		fmt.Printf("replay produced other violations than %s:\n", want)
